@@ -63,18 +63,26 @@ PLACES = ["top", "bottom", "quote", "list", "quote-in-list", "middle", "deep-quo
 
 def metamorphic(ctx, n_cases):
     import mistune
-    md = mistune.create_markdown(escape=True)
+    md_core = mistune.create_markdown(escape=True)
+    md_plug = mistune.create_markdown(escape=True, plugins=["footnotes", "table", "def_list", "strikethrough", "task_lists"])
     n = 0
-    for _ in range(n_cases):
+    for case_i in range(n_cases):
+        # every third case: use sites that exist only with plugins (the text of a footnote, a table cell, a definition-list entry)
+        plug = case_i % 3 == 2
+        md = md_plug if plug else md_core
         label = ctx.rng.choice(LABELS)
         url = ctx.rng.choice(URLS); title = ctx.rng.choice(TITLES)
         def_line = "[%s]: %s%s" % (variant(ctx.rng, label).replace("\n", " "), url, title)
         uses = []
         for _ in range(ctx.rng.randint(1, 3)):
             v = variant(ctx.rng, label).replace("\n", " ")
-            form = ctx.rng.choice(["[%s]", "[text][%s]", "[%s][]", "![img][%s]", "*em [%s] em*", "> quoted [%s]", "- li [%s]", "# h [%s]"])
+            form = ctx.rng.choice(["[%s]", "[text][%s]", "[%s][]", "![img][%s]", "*em [%s] em*", "> quoted [%s]", "- li [%s]", "# h [%s]"]
+                                  + (["note here[^n1]\n\n[^n1]: inside the note [%s] end", "| head |\n|------|\n| cell [%s] |", "term\n: definition [%s]", "- [ ] task [%s]", "~~del [%s]~~"] * 2 if plug else []))
             uses.append(form % v)
-        body = ["para " + u if not u.startswith((">", "-", "#")) else u for u in uses] + ["", "other [undefined label] and [zz][yy] stay"]
+        body = []
+        for u in uses:
+            body += ["para " + u if not u.startswith((">", "-", "#", "|", "term", "note here")) else u, ""]
+        body += ["other [undefined label] and [zz][yy] stay"]
         outs = {}
         for w in PLACES:
             doc = place(ctx.rng, body, def_line, w)
@@ -86,10 +94,15 @@ def metamorphic(ctx, n_cases):
         # compare the rendered use sites: strip the structural wrapper the placement itself adds by comparing link targets
         import re
         def sites(h):
-            return sorted(re.findall(r'<(?:a href|img src)="([^"]*)"(?: alt="[^"]*")?(?: title="([^"]*)")?', h)), ("[undefined label]" in h), ("[zz][yy]" in h)
+            found = re.findall(r'<(?:a href|img src)="([^"]*)"(?: alt="[^"]*")?(?: title="([^"]*)")?', h)
+            return sorted(x for x in found if not x[0].startswith(("#fn-", "#fnref-"))), ("[undefined label]" in h), ("[zz][yy]" in h)
         ref = sites(outs["top"])
         if not ref[0]:
             continue   # the definition line itself was not a valid definition (e.g. label variant with a line break inside a list) — nothing to compare
+        if len(ref[0]) != len(uses):
+            ctx.fail("use-unresolved:%s" % ("plugins" if plug else "core"), "the definition %r is valid (some uses resolve) but %d of %d use sites do not resolve" % (def_line, len(uses) - len(ref[0]), len(uses)),
+                     {"def": def_line, "body": body, "doc": place(ctx.rng, body, def_line, "top"), "out": outs["top"]})
+            continue
         for w in PLACES[1:]:
             if sites(outs[w]) != ref:
                 ctx.fail("placement:" + w, "a definition written at '%s' resolves differently than at the top: %r" % (w, def_line),
@@ -109,6 +122,14 @@ def metamorphic(ctx, n_cases):
             if title and ("second" in h):
                 ctx.fail("first-wins-title", "a later duplicate definition's title leaked", {"first": def_line, "dup": dup, "doc": doc, "out": h})
                 break
+        # … also when the first definition sits in a quote (or list item) that the next block ends without a blank line
+        a, b = ctx.rng.choice([("> ", "- "), ("- ", "> "), ("> ", "1. "), ("1. ", "> ")])
+        doc = a + def_line + "\n" + b + dup + "\n\n" + "\n".join(body) + "\n"
+        n += 1
+        h = md(doc)
+        if "/SECOND" in h:
+            ctx.fail("first-wins:tight-%s" % ("quote-then-list" if a == "> " else "list-then-quote"), "a later duplicate definition won: the first stands in a %s that the block holding the second ends without a blank line" % ("quote" if a == "> " else "list item"),
+                     {"first": def_line, "dup": dup, "doc": doc, "out": h})
     return n
 
 
@@ -189,8 +210,22 @@ def ref_docs(ctx, n):
     return out
 
 
+def replay_known(ctx):
+    import mistune
+    for k in ctx.known:
+        ex = k.get("example") or {}
+        if "doc" not in ex:
+            continue
+        h = mistune.create_markdown(escape=True)(ex["doc"])
+        if "/SECOND" in h:
+            ctx.fail(k["signature"], "stored example of a known finding: a later duplicate definition won", {"doc": ex["doc"], "out": h})
+        else:
+            ctx.notes.append("a stored known-finding example no longer fails: %r" % ex["doc"])
+
+
 def run(ctx):
     ctx.broken += common.proof_stage(ctx, THEOREMS)
+    replay_known(ctx)
     docs = ref_docs(ctx, 1500 if ctx.quick() else 15000)
     n1 = correspondence(ctx, docs)
     n2 = metamorphic(ctx, 250 if ctx.quick() else 3000)
